@@ -16,6 +16,8 @@
 //! a block with parent `b` in slot `s` will have their block finalized.
 
 mod parent_ready_state;
+#[cfg(feature = "verif-hooks")]
+mod verif;
 
 use std::collections::HashMap;
 
